@@ -135,7 +135,13 @@ Inductive pop :=
 | RoleBurn (caller victim : addr) (amt : Z)          (* Ethereum tx: contract.burnCoins(victim, amt) signed by caller *)
 | BankSend (from to : addr) (amt : Z)                (* bank MsgSend of the paired denomination *)
 | Toggle                                             (* ToggleConversion *)
-| SetSendEnabled (b : bool).                         (* bank governance: send-enabled of the denomination *)
+| SetSendEnabled (b : bool)                          (* bank governance: send-enabled of the denomination *)
+| ConvertForeignCoin (sender receiver : addr) (amt : Z).
+    (* MsgConvertCoin whose coin is NOT of the pair's denomination although its name resolves
+       to the pair: GetTokenPairID answers a string of 40 hex digits by the ERC-20 address
+       index, so a coin merely named like the pair's contract address finds the pair.
+       ConvertCoin refuses it (msg.Coin.Denom != pair.Denom); the balances of that foreign
+       denomination are not part of the pair state *)
 
 (* evm_hooks.go PostTxProcessing: one iteration of the loop, for the log Transfer(from, to, amt)
    of this pair's contract; every failure is a `continue`, the hook returns nil.  (The two
@@ -244,6 +250,7 @@ Definition exec_pair (m h : bool) (bl : addr -> bool) (ps : pair) (o : pop) : op
       else csend ps from to amt
   | Toggle => Some (set_flags ps (negb (p_enabled ps)) (p_sendok ps))
   | SetSendEnabled b => Some (set_flags ps (p_enabled ps) b)
+  | ConvertForeignCoin _ _ _ => None                    (* every path returns an error *)
   end.
 
 (** * Whole state: several pairs *)
